@@ -138,10 +138,22 @@ def task_solve(task):
         inst["v"] = [str(sp.nsimplify(sp.sympify(x).subs(subs))) for x in res["vector"]]
         res["instances"].append(inst)
     return res
-from tasks_core import *  # noqa
-from tasks_bif import *  # noqa
-from tasks_inv import *  # noqa
-from tasks_sim import *  # noqa
-from tasks_parse import *  # noqa
-from tasks_dist import *  # noqa
-from tasks_stats import *  # noqa
+
+
+# every harness/tasks_*.py module is picked up automatically (its task_* functions)
+import glob as _glob
+import importlib as _importlib
+import os as _os
+
+IMPORT_ERRORS = {}
+for _f in sorted(_glob.glob(_os.path.join(_os.path.dirname(_os.path.abspath(__file__)), "tasks_*.py"))):
+    _m = _os.path.basename(_f)[:-3]
+    try:
+        _mod = _importlib.import_module(_m)
+        globals().update({k: v for k, v in vars(_mod).items() if k.startswith("task_")})
+    except BaseException as _e:  # noqa
+        IMPORT_ERRORS[_m] = repr(_e)
+
+
+def task_import_errors(task):
+    return IMPORT_ERRORS
